@@ -4,11 +4,23 @@ Times are multiples of 0.25 s (exactly representable, float arithmetic on them i
 driver as integers in quarter seconds.  Tokens (see lean/FeVerif/Driver/TimeRange.lean):
   bound: N | <int> | inf | T<int> | TX      ctor: start,end,absolute(N/0/1),t0(N/<int>)
   event: b | u | s | n | <int> | R, message tokens optionally prefixed with t (return_timestamps=True)
+
+The harness writes the same values in every spelling the constructor accepts (the driver and the specification are
+given the value, never the spelling):
+  bound:    O omitted argument | i<int> python int | g<..> numpy.float64 | h<..> numpy.float32 | j<int> numpy.int64 |
+            T<..> Timestamp | TX invalid Timestamp         (<..> = <int> or inf)
+  absolute: O omitted | b0 b1 numpy.bool_ | i0 i1 python int
+  t0:       O omitted | <int> Timestamp | TX invalid Timestamp | f<int> float | g<int> numpy.float64 | i<int> int | fnan
+  optional fifth field, how the object is made: p positional arguments | pt parse((start, end), absolute) |
+            pl parse([start, end], absolute) | p1 parse((start,), absolute) | p3 parse((start, end, 'abs'|'rel')) |
+            p3c the same with the contrary `absolute` argument (the tuple wins) | po parse(TimeRange(...), absolute)
 """
 import copy
+import functools
 import itertools
 import json
 import math
+import re
 
 import fv
 
@@ -64,44 +76,163 @@ def message_for(tok, variant):
     return timed_message(int(tok), variant)
 
 
-def bound_arg(tok):
-    Timestamp = _messages()['Timestamp']
-    if tok == 'N':
-        return None
-    if tok == 'inf':
-        return math.inf
+_BOUND = re.compile(r'^(T|i|g|h|j|)(-?\d+|inf)$')
+_OMIT = object()
+
+
+@functools.lru_cache(maxsize=None)
+def split_bound(tok):
+    """bound token -> (spelling, value); value is 'N' (no bound given), 'X' (invalid Timestamp), 'inf' or an int."""
+    if tok in ('N', 'O'):
+        return tok, 'N'
     if tok == 'TX':
-        return Timestamp()
-    if tok == 'Tinf':
-        return Timestamp(math.inf)
-    if tok.startswith('T'):
-        return Timestamp(int(tok[1:]) * Q)
-    return int(tok) * Q
+        return 'T', 'X'
+    m = _BOUND.match(tok)
+    if not m:
+        raise fv.InfraError('bad bound token %r' % tok)
+    return m.group(1), ('inf' if m.group(2) == 'inf' else int(m.group(2)))
+
+
+def spelled(sp, x):
+    """The number x (float) in the spelling sp."""
+    import numpy as np
+    if sp == '':
+        return float(x)
+    if sp == 'i':
+        return int(x)
+    if sp == 'g':
+        return np.float64(x)
+    if sp == 'h':
+        return np.float32(x)
+    if sp == 'j':
+        return np.int64(x)
+    if sp == 'T':
+        return _messages()['Timestamp'](x)
+    raise fv.InfraError('bad spelling %r' % sp)
+
+
+def bound_arg(tok):
+    sp, v = split_bound(tok)
+    if sp == 'N':
+        return None
+    if sp == 'O':
+        return _OMIT
+    if v == 'X':
+        return _messages()['Timestamp']()
+    return spelled(sp, math.inf if v == 'inf' else v * Q)
+
+
+def canon_bound(tok):
+    """The token the driver understands: the value, as a number or as a Timestamp."""
+    sp, v = split_bound(tok)
+    if v == 'N':
+        return 'N'
+    if v == 'X':
+        return 'TX'
+    return ('T' if sp == 'T' else '') + str(v)
 
 
 def t0_arg(tok):
     Timestamp = _messages()['Timestamp']
     if tok == 'N':
         return None
+    if tok == 'O':
+        return _OMIT
     if tok == 'TX':
         return Timestamp()
+    if tok == 'fnan':
+        return math.nan
+    if tok[0] in 'fgi':
+        return spelled('' if tok[0] == 'f' else tok[0], int(tok[1:]) * Q)
     return Timestamp(int(tok) * Q)
 
 
+def canon_t0(tok):
+    if tok in ('N', 'O', 'TX', 'fnan'):
+        return 'N'
+    return tok[1:] if tok[0] in 'fgi' else tok
+
+
 def abs_arg(tok):
-    return None if tok == 'N' else (tok == '1')
+    import numpy as np
+    if tok == 'N':
+        return None
+    if tok == 'O':
+        return _OMIT
+    if tok[0] == 'b':
+        return np.bool_(tok[1] == '1')
+    if tok[0] == 'i':
+        return int(tok[1])
+    return tok == '1'
 
 
+def canon_abs(tok):
+    return 'N' if tok in ('N', 'O') else tok[-1]
+
+
+@functools.lru_cache(maxsize=None)
+def fields(ctor):
+    f = ctor.split(',')
+    return f[0], f[1], f[2], f[3], (f[4] if len(f) > 4 else '')
+
+
+@functools.lru_cache(maxsize=None)
 def dctor(ctor):
-    """Constructor token for the driver: an invalid Timestamp as p1_t0 is 'no t0'."""
-    s, e, a, z = ctor.split(',')
-    return '%s,%s,%s,%s' % (s, e, a, 'N' if z == 'TX' else z)
+    """Constructor token for the driver: values only (an invalid Timestamp or NaN as p1_t0 is 'no t0')."""
+    s, e, a, z, _ = fields(ctor)
+    return '%s,%s,%s,%s' % (canon_bound(s), canon_bound(e), canon_abs(a), canon_t0(z))
+
+
+@functools.lru_cache(maxsize=None)
+def ctor_args(ctor):
+    s, e, a, z, _ = fields(ctor)
+    return bound_arg(s), bound_arg(e), abs_arg(a), t0_arg(z)
 
 
 def make_range(ctor):
     from fusion_engine_client.utils.time_range import TimeRange
-    s, e, a, z = ctor.split(',')
-    return TimeRange(start=bound_arg(s), end=bound_arg(e), absolute=abs_arg(a), p1_t0=t0_arg(z))
+    s, e, a, z, form = fields(ctor)
+    Timestamp = _messages()['Timestamp']
+    sv, ev, av, zv = [Timestamp(float(x)) if isinstance(x, Timestamp) else x for x in ctor_args(ctor)]   # never share a Timestamp
+
+    def given(x):
+        return None if x is _OMIT else x
+    if form == '':
+        kw = {}
+        for k, v in (('start', sv), ('end', ev), ('absolute', av), ('p1_t0', zv)):
+            if v is not _OMIT:
+                kw[k] = v
+        return TimeRange(**kw)
+    if form == 'p':
+        args = [sv, ev, av, zv]
+        while args and args[-1] is _OMIT:
+            args.pop()
+        return TimeRange(*[given(x) for x in args])
+    if zv is not _OMIT and zv is not None:
+        raise fv.InfraError('parse() forms take no t0: %s' % ctor)
+    akw = {} if av is _OMIT else {'absolute': av}
+    if form == 'pt':
+        return TimeRange.parse((given(sv), given(ev)), **akw)
+    if form == 'pl':
+        return TimeRange.parse([given(sv), given(ev)], **akw)
+    if form == 'p1':
+        if given(ev) is not None:
+            raise fv.InfraError('p1 form with an end: %s' % ctor)
+        return TimeRange.parse((given(sv),), **akw)
+    if form in ('p3', 'p3c'):
+        want = canon_abs(a)
+        if want == 'N':
+            raise fv.InfraError('p3 form needs a type: %s' % ctor)
+        kw = {'absolute': want != '1'} if form == 'p3c' else {}
+        return TimeRange.parse((given(sv), given(ev), 'abs' if want == '1' else 'rel'), **kw)
+    if form == 'po':
+        kw = {}
+        for k, v in (('start', sv), ('end', ev), ('absolute', av)):
+            if v is not _OMIT:
+                kw[k] = v
+        inner = TimeRange(**kw)
+        return TimeRange.parse(inner, **({} if av is _OMIT else {'absolute': inner.absolute}))
+    raise fv.InfraError('bad constructor form %r' % form)
 
 
 def qs(x):
@@ -154,21 +285,21 @@ def run_real(r, events):
 
 # ---- the property, restated for the harness (independent of the Lean model) ----------------------------------
 
+@functools.lru_cache(maxsize=None)
 def expected_interval(ctor):
-    """(start token or N, end token or N, absolute) the constructor arguments describe."""
-    s, e, a, _ = ctor.split(',')
-    absolute = (a == '1') if a != 'N' else (s.startswith('T') or e.startswith('T'))
-
-    def val(tok):
-        if tok in ('N', 'TX'):
-            return 'N'
-        return tok[1:] if tok.startswith('T') else tok
-    s, e = val(s), val(e)
-    if s == '0' and absolute:       # documented: an absolute start of 0 is the beginning of time
-        s = 'N'
-    if e == 'inf':
-        e = 'N'
-    return s, e, absolute
+    """(start token or N, end token or N, absolute) the constructor arguments describe - from the requested values,
+    whatever their spelling."""
+    s, e, a, _, _ = fields(ctor)
+    (ssp, sv), (esp, ev) = split_bound(s), split_bound(e)
+    a = canon_abs(a)
+    absolute = (a == '1') if a != 'N' else (ssp == 'T' or esp == 'T')
+    sv = 'N' if sv in ('N', 'X') else str(sv)
+    ev = 'N' if ev in ('N', 'X') else str(ev)
+    if sv == '0' and absolute:       # documented: an absolute start of 0 is the beginning of time
+        sv = 'N'
+    if ev == 'inf':
+        ev = 'N'
+    return sv, ev, absolute
 
 
 def p1_of(tok):
@@ -189,9 +320,7 @@ def segments(events):
 def spec_lines(ctor, events):
     """One trangespec request per segment between restarts; the origin persists across restart()."""
     s, e, absolute = expected_interval(ctor)
-    origin = ctor.split(',')[3]
-    if origin == 'TX':
-        origin = 'N'
+    origin = canon_t0(fields(ctor)[3])
     lines = []
     for seg in segments(events):
         if origin == 'N':
@@ -335,9 +464,10 @@ def first_p1(seq):
     return None
 
 
+@functools.lru_cache(maxsize=None)
 def t0_of(ctor):
-    z = ctor.split(',')[3]
-    return None if z in ('N', 'TX') else int(z)
+    z = canon_t0(fields(ctor)[3])
+    return None if z == 'N' else int(z)
 
 
 def compatible(ca, cb, seq):
@@ -463,9 +593,246 @@ def mkabs_case(ctx, batch, ctor, p, in_place, seqs):
             return
 
 
+# ---- operation sequences over one or two range objects ------------------------------------------------------
+#
+# A script: make A, show it the messages `pa`; (make B, show it `pb`;) apply one operation - A.intersect(B),
+# B.intersect(A), A.make_absolute(p), copy.copy(A), copy.deepcopy(A) - optionally restart() the result, then show
+# the result the messages `s`.  What the property predicts for the result comes from the requested numbers only:
+#   * the origin a range knows is its supplied t0, else the first P1 time it has been shown;
+#   * intersect() can only fail when one range is absolute, the other relative and neither knows an origin;
+#     make_absolute() only on a relative range that knows none and is given none;
+#   * a result that starts a new pass (restart(), or nothing accepted and no P1 time at or beyond the end so far)
+#     gives on `s` the conjunction of the two intervals' verdicts, each measured from the origin its range knows, else
+#     from the first P1 time of `s` (only judged when those frames agree, as in `Compatible`);
+#   * an operation that does not change the accepted set (make_absolute, copies, intersect with a range without
+#     bounds) applied in the middle of a pass leaves the pass undisturbed: the verdicts on `s` are the tail of the
+#     interval's verdicts on `pa + s`.
+
+def plain(events):
+    return [ev[1:] if ev.startswith('t') else ev for ev in events if ev != 'R']
+
+
+def is_monotone(events):
+    ts = [p1_of(e) for e in events if e != 'R' and p1_of(e) is not None]
+    return all(x <= y for x, y in zip(ts, ts[1:]))
+
+
+def known_origin(ctor, prefix):
+    z = t0_of(ctor)
+    return z if z is not None else first_p1(prefix)
+
+
+def end_seen(iv, origin, prefix):
+    """Has a P1 time at or beyond the end of the interval been shown?"""
+    if iv[1] == 'N':
+        return False
+    for ev in plain(prefix):
+        t = p1_of(ev)
+        if t is None:
+            continue
+        if not iv[2]:
+            if origin is None:
+                continue
+            t -= origin
+        if t >= int(iv[1]):
+            return True
+    return False
+
+
+def ask_spec(batch, iv, origin, events):
+    return batch.ask('trangespec %s,%s,%d,%s %s' % (iv[0], iv[1], 1 if iv[2] else 0, 'N' if origin is None else origin,
+                                                     ','.join(plain(events)) or '='))
+
+
+def frames_agree(abs_r, abs_o, o_r, o_o, f):
+    """`Compatible` with the origins the two ranges know (receiver, other) on a sequence whose first P1 time is f."""
+    if abs_r and abs_o:
+        return True
+    if not abs_r and not abs_o:
+        return (o_r if o_r is not None else f) == (o_o if o_o is not None else f)
+    if abs_r:
+        return o_o is not None or o_r == f
+    return o_r is not None or o_o == f
+
+
+def script_text(d):
+    t = 'A = TimeRange(%s)' % d['a']
+    if d['pa']:
+        t += ' shown [%s]' % ','.join(d['pa'])
+    if d['op'] in ('ab', 'ba'):
+        t += '; B = TimeRange(%s)' % d['b']
+        if d['pb']:
+            t += ' shown [%s]' % ','.join(d['pb'])
+        t += '; %s.intersect(%s, in_place=%s)' % ((('A', 'B') if d['op'] == 'ab' else ('B', 'A')) + (d['in_place'],))
+    elif d['op'] == 'mk':
+        t += '; A.make_absolute(%s, in_place=%s)' % (d['p'], d['in_place'])
+    else:
+        t += '; copy.%s(A)' % d['op']
+    if d['restart']:
+        t += '; restart()'
+    return t
+
+
+def script_case(ctx, batch, d):
+    d = dict(d, kind='script')
+    ca, pa, op, s = d['a'], d['pa'], d['op'], d['s']
+    text = script_text(d)
+    try:
+        A = make_range(ca)
+        B = make_range(d['b']) if op in ('ab', 'ba') else None
+    except Exception as e:  # noqa
+        ctx.violation('C13/constructor-raised', '%s raised %s' % (text, e), d)
+        return
+    bits_a, err = run_real(A, pa)
+    if err is None and B is not None:
+        _, err = run_real(B, d['pb'])
+    if err is not None:
+        ctx.violation('C13/is_in_range/raised', '%s: %s' % (text, err), d)
+        return
+    ia, oa = expected_interval(ca), known_origin(ca, pa)
+    ctx.count('script_' + op)
+    # the same script for the model
+    mop = {'ab': 'ab', 'ba': 'ba', 'copy': 'id', 'deepcopy': 'id'}.get(op) or 'mk' + ('N' if d['p'] in ('N', 'TX') else d['p'])
+    mline = 'trscript %s %s %s %s %s %s' % (dctor(ca), ','.join(pa) or '=', dctor(d['b']) if B is not None else '-',
+                                            (','.join(d['pb']) or '=') if B is not None else '=', mop,
+                                            ','.join((['R'] if d['restart'] else []) + s) or '=')
+    if op in ('ab', 'ba'):
+        ib, ob = expected_interval(d['b']), known_origin(d['b'], d['pb'])
+        if op == 'ab':
+            recv, other, ir, io, o_r, o_o, pr = A, B, ia, ib, oa, ob, pa
+        else:
+            recv, other, ir, io, o_r, o_o, pr = B, A, ib, ia, ob, oa, d['pb']
+        kinds = '%sx%s' % ('abs' if ir[2] else 'rel', 'abs' if io[2] else 'rel')
+        recv_before, other_before = state_str(recv), state_str(other)
+        must_raise = ir[2] != io[2] and o_r is None and o_o is None
+        try:
+            R = recv.intersect(other, in_place=d['in_place'])
+        except ValueError:
+            R = None
+        except Exception as e:  # noqa
+            ctx.violation('C13/intersect/raised-' + type(e).__name__, '%s raised %s' % (text, e), d)
+            return
+        if (R is None) != must_raise:
+            ctx.violation('C13/script/intersect/error-case/' + kinds,
+                          '%s: %s, expected %s (origins known: receiver %s, other %s; quarter seconds)' % (
+                              text, 'raised ValueError' if R is None else 'no error',
+                              'ValueError (absolute with relative and no origin known)' if must_raise else 'a range', o_r, o_o), d)
+            return
+        if state_str(other) != other_before:
+            ctx.violation('C13/intersect/modifies-other', '%s: other changed from %s to %s' % (text, other_before, state_str(other)), d)
+        if R is not None and d['in_place'] and R is not recv:
+            ctx.violation('C13/intersect/in-place-returns-copy', text, d)
+        if R is not None and not d['in_place'] and (R is recv or state_str(recv) != recv_before):
+            ctx.violation('C13/intersect/copy-modifies-self', '%s: self changed from %s to %s' % (text, recv_before, state_str(recv)), d)
+        ctx.case('script ' + json.dumps(d, sort_keys=True), nontrivial=R is not None)
+        if R is None:
+            batch.todo.append((judge_state, [batch.ask(mline)], ('script', d, 'err:ValueError')))
+            return
+        sig = 'C13/script/intersect/accepted-set-differs/' + kinds
+        identity = io[0] == 'N' and io[1] == 'N'
+    else:
+        ir, o_r, pr, io, o_o, recv = ia, oa, pa, None, None, A
+        recv_before = state_str(A)
+        if op == 'mk':
+            pv = None if d['p'] in ('N', 'TX') else int(d['p'])
+            must_raise = (not ia[2]) and oa is None and pv is None
+            try:
+                R = A.make_absolute(p1_t0=t0_arg(d['p']), in_place=d['in_place'])
+            except ValueError:
+                R = None
+            except Exception as e:  # noqa
+                ctx.violation('C13/make_absolute/raised-' + type(e).__name__, '%s raised %s' % (text, e), d)
+                return
+            if (R is None) != must_raise:
+                ctx.violation('C13/script/make_absolute/error-case', '%s: %s (origin known: %s)' % (
+                    text, 'raised ValueError' if R is None else 'no error', oa), d)
+                return
+            ctx.case('script ' + json.dumps(d, sort_keys=True), nontrivial=not ia[2])
+            if R is None:
+                batch.todo.append((judge_state, [batch.ask(mline)], ('script', d, 'err:ValueError')))
+                if state_str(A) != recv_before:
+                    ctx.violation('C13/make_absolute/raise-modifies-self', '%s: %s -> %s' % (text, recv_before, state_str(A)), d)
+                return
+            if d['in_place'] and R is not A:
+                ctx.violation('C13/make_absolute/in-place-returns-copy', text, d)
+            if not d['in_place'] and (R is A or state_str(A) != recv_before):
+                ctx.violation('C13/make_absolute/copy-modifies-self', '%s: %s -> %s' % (text, recv_before, state_str(A)), d)
+            if not R.absolute:
+                ctx.violation('C13/make_absolute/result-not-absolute', '%s = %s is still relative' % (text, state_str(R)), d)
+                return
+            if o_r is None:
+                o_r = pv
+            sig = 'C13/script/make_absolute/accepted-set-differs'
+        else:
+            R = copy.copy(A) if op == 'copy' else copy.deepcopy(A)
+            ctx.case('script ' + json.dumps(d, sort_keys=True), nontrivial=True)
+            sig = 'C13/script/%s/accepted-set-differs' % op
+        identity = True
+    got_state = state_str(R)
+    if d['restart']:
+        R.restart()
+    bits, err = run_real(R, s)
+    if err is not None:
+        ctx.violation('C13/is_in_range/raised', '%s, then [%s]: %s' % (text, ','.join(s), err), d)
+        return
+    batch.todo.append((judge_state, [batch.ask(mline)], ('script', d, ('r' if d['restart'] else '') + bits + '|' + state_str(R))))
+    if op in ('copy', 'deepcopy') and not d['restart']:
+        bits2, err = run_real(A, s)    # the original, afterwards: the copy's pass must not have touched it
+        if err is not None or bits2 != bits:
+            ctx.violation('C13/script/%s/shares-state' % op, '%s: the copy gives %s on [%s], then the original gives %s' % (
+                text, bits, ','.join(s), err or bits2), d)
+            return
+    # what the property predicts
+    idx = [ask_spec(batch, ir, o_r, pr)]                                  # [0] the receiver's own pass so far
+    cont = pr + s
+    f_new, f_cont = first_p1(s), first_p1(cont)
+    if io is None:
+        idx.append(ask_spec(batch, ir, o_r if o_r is not None else f_new, s))      # [1] a new pass
+        idx.append(ask_spec(batch, ir, o_r if o_r is not None else f_cont, cont))  # [2] the pass continued
+        ok_new = ok_cont = True
+    else:
+        ok_new = frames_agree(ir[2], io[2], o_r, o_o, f_new)
+        ok_cont = frames_agree(ir[2], io[2], o_r, o_o, f_cont)
+        idx.append(ask_spec(batch, ir, o_r if o_r is not None else f_new, s))
+        idx.append(ask_spec(batch, ir, o_r if o_r is not None else f_cont, cont))
+        idx.append(ask_spec(batch, io, o_o if o_o is not None else f_new, s))      # [3] the other interval, new pass
+    batch.todo.append((judge_script, idx, (d, text, sig, bits, got_state, ok_new, ok_cont, identity,
+                                           end_seen(ir, o_r, pr), is_monotone(cont), len(pr))))
+
+
+def judge_script(ctx, outs, payload):
+    d, text, sig, bits, got_state, ok_new, ok_cont, identity, ended, mono, npre = payload
+    if not all(set(o) <= set('01') for o in outs):
+        raise fv.InfraError('trangespec answered %r' % (outs,))
+    fresh = d['restart'] or npre == 0 or ('1' not in outs[0] and not ended)
+    if fresh:
+        if not ok_new:
+            ctx.count('script_skipped_incompatible_origins')
+            return
+        want = outs[1] if len(outs) < 4 else ''.join('1' if x == '1' and y == '1' else '0' for x, y in zip(outs[1], outs[3]))
+        how = 'a new pass'
+    elif identity and mono:
+        if not ok_cont:
+            ctx.count('script_skipped_incompatible_origins')
+            return
+        want = outs[2][npre:]
+        how = 'the pass continued (the operation does not change the accepted set)'
+    else:
+        ctx.count('script_not_judged_mid_pass_narrowing')
+        return
+    ctx.count('script_judged_' + ('new_pass' if fresh else 'continued'))
+    if bits != want:
+        ctx.violation(sig + ('/after-history' if (d['pa'] or d.get('pb')) else '') + ('' if fresh else '/continued'),
+                      '%s = %s, then on [%s] gives %s; the interval semantics give %s (%s; quarter seconds)' % (
+                          text, got_state, ','.join(d['s']), bits, want, how), d)
+
+
 # ---- parse -------------------------------------------------------------------------------------------------
 
 NUM_TOKENS = ['', '0', '1', '2', '2.5', '0.25', '1.50', '-1', '-0.5', '-0', 'inf', '-inf', '+2', '.5', '1.', '00.75']
+# further spellings float() reads (exponents, surrounding blanks, digit separators, names of infinity), at the boundary values
+NUM_SPELLINGS = ['0.0', '0e0', '-0.0', '+0', ' 0 ', '0_0', '1e0', '15e-1', '2.5E0', ' 2 ', '\t1.5', '1_0', '+inf', 'Inf', 'INF',
+                 'infinity', '+Infinity', '-infinity', '1e400', '-1e400', '1e-400']
 BAD_TOKENS = ['x', '1.5.2', '-', '--1', '1,5', '0x10', 'abs', '.']
 TYPE_TOKENS = ['abs', 'rel', 'ABS', '', 'x', 'relative']
 
@@ -498,6 +865,31 @@ def expected_parse(s, absolute):
     return st, en, absolute
 
 
+def driver_string(s):
+    """The text for the driver, whose number reader knows `[+-]digits[.digits]`, inf and -inf only (float() is external
+    to the model): every part float() reads is rewritten in that form, every part it refuses as `x`; None when a
+    value is not a multiple of 0.25."""
+    out = []
+    for i, part in enumerate(s.split(':')):
+        if part == '' or i >= 2:
+            out.append(part if ' ' not in part and '\t' not in part else 'x')
+            continue
+        try:
+            v = float(part)
+        except ValueError:
+            out.append('x')
+            continue
+        if math.isnan(v):
+            return None
+        if math.isinf(v):
+            out.append('inf' if v > 0 else '-inf')
+        elif v * 4 != int(v * 4):
+            return None
+        else:
+            out.append(('-' if math.copysign(1.0, v) < 0 else '') + '%.2f' % abs(v))
+    return ':'.join(out)
+
+
 def parse_case(ctx, batch, s, a, seqs):
     from fusion_engine_client.utils.time_range import TimeRange
     data = {'kind': 'parse', 'string': s, 'absolute': a}
@@ -509,7 +901,9 @@ def parse_case(ctx, batch, s, a, seqs):
     except Exception as e:  # noqa
         ctx.violation('C13/parse/raised-' + type(e).__name__, 'TimeRange.parse(%r) raised %s' % (s, e), data)
         return
-    batch.todo.append((judge_state, [batch.ask('trparse %s %s' % (s, a))], ('parse', data, got)))
+    ds = driver_string(s)
+    if ds is not None:
+        batch.todo.append((judge_state, [batch.ask('trparse %s %s' % (ds, a))], ('parse', data, got)))
     want = expected_parse(s, abs_arg(a))
     ctx.case('parse %s %s' % (s, a), nontrivial=r is not None and r._range_specified)
     ctx.count('parse_error' if r is None else 'parse_ok')
@@ -542,6 +936,170 @@ def judge_parse(ctx, outs, payload):
             ctx.violation('C13/parse/accepted-set-differs', 'TimeRange.parse(%r, absolute=%s) = %s gives %s on [%s]; the described interval %s gives %s' % (
                 data['string'], data['absolute'], got, bits, ','.join(seq), want, o), dict(data, seq=seq))
             return
+
+
+# ---- spellings ---------------------------------------------------------------------------------------------
+
+def bound_spellings(v):
+    """Every way of handing the constructor the bound value v ('N', 'inf' or quarter seconds)."""
+    if v == 'N':
+        return ['N', 'O', 'TX']
+    if v == 'inf':
+        return ['inf', 'ginf', 'hinf', 'Tinf']
+    res = ['%d' % v, 'g%d' % v, 'h%d' % v, 'T%d' % v]
+    if v % 4 == 0:
+        res += ['i%d' % v, 'j%d' % v]
+    return res
+
+
+def t0_spellings(v):
+    if v == 'N':
+        return ['N', 'O', 'TX', 'fnan']
+    res = ['%d' % v, 'f%d' % v, 'g%d' % v]
+    if v % 4 == 0:
+        res.append('i%d' % v)
+    return res
+
+
+ABS_SPELLINGS = {'N': ['N', 'O'], '0': ['0', 'b0', 'i0'], '1': ['1', 'b1', 'i1']}
+
+
+def respell(rng, ctor):
+    """The same requested values in randomly chosen spellings (a Timestamp bound keeps being one only by chance, so
+    `absolute` is made explicit first when it was inferred)."""
+    s, e, a, z, form = fields(ctor)
+    a = canon_abs(a)
+    if a == 'N':
+        a = '1' if expected_interval(ctor)[2] else rng.choice(['N', '0'])
+
+    def bs(tok):
+        v = split_bound(tok)[1]
+        return rng.choice(bound_spellings('N' if v == 'X' else v))
+    s2, e2 = bs(s), bs(e)
+    if a == 'N' and (s2.startswith('T') or e2.startswith('T')):
+        a = '0'
+    zc = canon_t0(z)
+    return '%s,%s,%s,%s' % (s2, e2, rng.choice(ABS_SPELLINGS[a]), rng.choice(t0_spellings('N' if zc == 'N' else int(zc))))
+
+
+def spelled_ctors(rng, deep):
+    """Constructor calls that differ in how the values are written, not (only) in the values."""
+    svals = ['N', 0, 4, 6, 'inf'] + ([5, 12] if deep else [])
+    evals = ['N', 0, 6, 8, 'inf'] + ([4, 13] if deep else [])
+    res = []
+    # every spelling of the start x every spelling of the end
+    for sv in svals:
+        for ev in evals:
+            for s in bound_spellings(sv):
+                for e in bound_spellings(ev):
+                    for a in ('N', '0', '1'):
+                        for z in ('N', '8'):
+                            res.append('%s,%s,%s,%s' % (s, e, a, z))
+    # every spelling of absolute x every spelling of t0, on a few intervals
+    for s, e in [('N', 'N'), ('0', '8'), ('4', 'N'), ('N', '6'), ('4', '8'), ('T0', 'T8'), ('T4', 'N'), ('N', 'T6'), ('6', 'inf'),
+                 ('g0', 'Tinf'), ('TX', 'j8'), ('i4', 'h6')]:
+        for a in sum(ABS_SPELLINGS.values(), []):
+            for zv in ('N', 0, 2, 8):
+                for z in t0_spellings(zv):
+                    res.append('%s,%s,%s,%s' % (s, e, a, z))
+    # the other ways of making the object
+    base = [c for c in res if canon_t0(fields(c)[3]) == 'N']
+    pick = rng.sample(base, 500 if deep else 220)
+    for c in pick:
+        s, e, a, z, _ = fields(c)
+        res.append('%s,%s,%s,%s,p' % (s, e, a, rng.choice(['O', 'N', '8', 'f8', 'TX'])))
+        res.append('%s,%s,%s,O,%s' % (s, e, a, rng.choice(['pt', 'pl'])))
+        res.append('%s,%s,%s,O,po' % (s, e, a))
+        if canon_abs(a) != 'N':
+            res.append('%s,%s,%s,O,%s' % (s, e, a, rng.choice(['p3', 'p3c'])))
+        if split_bound(e)[1] == 'N':
+            res.append('%s,%s,%s,O,p1' % (s, e, a))
+    return res
+
+
+def probe_seqs(rng, grid):
+    """A fixed set of short sequences that tell the intervals over the grid apart: everything up to length 2, and
+    untimed messages before, between and after every two P1 times."""
+    res = monotone_seqs(2, grid)
+    for i, a in enumerate(grid):
+        for b in grid[i:]:
+            res.append(['U', str(a), 'U', str(b), 'U'])
+    return [concretise(rng, x, 0.05) for x in res]
+
+
+def gen_scripts(rng, seqs, deep):
+    """Operation sequences (see script_case)."""
+    conc = [concretise(rng, x, 0.1) for x in seqs if 1 <= len(x) <= 4]
+    lows = [min([p1_of(e) for e in x if p1_of(e) is not None] + [1 << 30]) for x in conc]   # monotone: the first P1 time
+    by_first = {}
+    for x in conc:
+        by_first.setdefault(first_p1(x), []).append(x)
+    prefixes = [[]] + [x for x in conc if len(x) <= 3]
+    timed_prefixes = [x for x in prefixes if first_p1(x) is not None]
+    untimed_prefixes = [x for x in prefixes if x and first_p1(x) is None]
+    pool = ['%s,%s,%s,%s' % (s, e, a, z) for s in ['N', '0', '4', '6'] for e in ['N', '6', '8', '12'] for a in '01' for z in ['N', '4', '8']]
+
+    def split(prefix_ok=None):
+        x = rng.choice(conc)
+        k = rng.randrange(0, len(x) + 1)
+        return x[:k], x[k:]
+
+    def new_pass(first):
+        """A sequence for a new pass; when an origin is known from what a range was shown, mostly one that starts there."""
+        if first is not None and first in by_first and rng.random() < 0.8:
+            return rng.choice(by_first[first])
+        return rng.choice(conc)
+
+    def two(ca, cb, pa, pb, op, in_place, restart):
+        pr = pa if op == 'ab' else pb
+        if restart or not pr:
+            o = known_origin(ca, pa)
+            if o is None:
+                o = known_origin(cb, pb)
+            s = new_pass(o)
+        else:   # continue the receiver's pass
+            last = max([p1_of(e) for e in pr if p1_of(e) is not None] + [-1])
+            s = rng.choice([x for x, lo in zip(conc, lows) if lo >= last])
+        return {'a': ca, 'pa': pa, 'b': cb, 'pb': pb, 'op': op, 'in_place': in_place, 'restart': restart, 's': s}
+
+    # (i) every ordered pair of the pool, the rest drawn
+    for ca in pool:
+        for cb in pool:
+            if rng.random() < 0.15:
+                ca2, cb2 = respell(rng, ca), respell(rng, cb)
+            else:
+                ca2, cb2 = ca, cb
+            yield two(ca2, cb2, rng.choice(prefixes), rng.choice(prefixes) if rng.random() < 0.3 else [],
+                      rng.choice(['ab', 'ba']), rng.random() < 0.5, rng.random() < 0.6)
+    # (ii) every combination of {absolute, relative} x {t0 supplied or not} x {shown nothing, only messages without P1
+    #      time, a P1 time} for both ranges x both directions x in place or not x restart or not
+    shown = {'nothing': [[]], 'untimed': untimed_prefixes, 'timed': timed_prefixes}
+    for _ in range(8 if deep else 3):
+        for aa in '01':
+            for za in ('N', '4'):
+                for sa in shown:
+                    for ab in '01':
+                        for zb in ('N', '4', '8'):
+                            for sb in shown:
+                                for op in ('ab', 'ba'):
+                                    for in_place in (True, False):
+                                        for restart in (True, False):
+                                            ca = '%s,%s,%s,%s' % (rng.choice(['N', '0', '4', '6']), rng.choice(['N', '6', '8', '12']), aa, za)
+                                            cb = '%s,%s,%s,%s' % (rng.choice(['N', 'N', '0', '4', '6']), rng.choice(['N', 'N', '6', '8', '12']), ab, zb)
+                                            yield two(ca, cb, rng.choice(shown[sa]), rng.choice(shown[sb]), op, in_place, restart)
+    # (iii) make_absolute and copies in the middle of a pass or before a new one
+    for ctor in pool + [respell(rng, c) for c in pool]:
+        for p in ['N', '4', '8', 'TX']:
+            for in_place in (True, False):
+                restart = rng.random() < 0.4
+                pa, s = split()
+                if restart:
+                    s = new_pass(known_origin(ctor, pa))
+                yield {'a': ctor, 'pa': pa, 'op': 'mk', 'p': p, 'in_place': in_place, 'restart': restart, 's': s}
+        for op in ('copy', 'deepcopy'):
+            for restart in (False, True):
+                pa, s = split()
+                yield {'a': ctor, 'pa': pa, 'op': op, 'restart': restart, 's': s if not restart else rng.choice(conc)}
 
 
 # ---- driver of the whole check -----------------------------------------------------------------------------
@@ -583,6 +1141,19 @@ def run(ctx, wide=False):
         if len(batch.lines) > 150000:
             batch.flush(ctx)
     batch.flush(ctx)
+    # (1b) the same values in every spelling: each constructor call x the probe sequences
+    probes = probe_seqs(rng, grid)
+    sp = spelled_ctors(rng, deep)
+    ctx.count('spelled_ctor_configs', len(sp))
+    for ctor in sp:
+        for ev in probes:
+            seq_case(ctx, batch, ctor, ev)
+        for _ in range(6 if deep else 2):
+            a, b = rng.choice(seqs), rng.choice(short)
+            seq_case(ctx, batch, ctor, concretise(rng, a) + (['R'] + concretise(rng, b) if rng.random() < 0.4 else []))
+        if len(batch.lines) > 150000:
+            batch.flush(ctx)
+    batch.flush(ctx)
     # (3) random longer sequences: 1-3 independently monotone segments separated by restart()
     times = [0, 1, 2, 3, 4, 5, 6, 8, 9, 12, 13, 16, 40]
     for _ in range(6000 if deep else 1500):
@@ -610,6 +1181,10 @@ def run(ctx, wide=False):
         for p in ['N', '4', '8', 'TX']:
             mkabs_case(ctx, batch, ctor, p, rng.random() < 0.5, rng.sample(iseqs, 8))
     batch.flush(ctx)
+    # (5b) operation sequences: is_in_range on one range, then intersect / make_absolute / copy, then further messages
+    for d in gen_scripts(rng, seqs, deep):
+        script_case(ctx, batch, d)
+    batch.flush(ctx)
     # (6) parse
     pseqs = [concretise(rng, s, 0.0) for s in seqs if len(s) == 3] + [concretise(rng, s, 0.0) for s in rng.sample(seqs, 30)]
     strings = set()
@@ -621,6 +1196,12 @@ def run(ctx, wide=False):
                 if s in NUM_TOKENS[:8] or e in NUM_TOKENS[:8] or rng.random() < 0.2:
                     strings.add(s + ':' + e + ':' + t)
     strings |= {'1:2:abs:', '1:2:3:4', ':::', '::', '::abs', '::rel', ':', '1:2:rel:abs'}
+    for s in NUM_SPELLINGS:
+        strings.add(s)
+        for e in NUM_TOKENS[:8] + NUM_SPELLINGS:
+            for t in ['', ':abs', ':rel']:
+                strings.add(s + ':' + e + t)
+                strings.add(e + ':' + s + t)
     for s in sorted(strings):
         for a in 'N01':
             parse_case(ctx, batch, s, a, rng.sample(pseqs, 5 if deep else 3))
@@ -638,9 +1219,19 @@ def check(ctx):
         '{no P1 time: raw bytes, payload without P1 time, system-timed payload, payload with invalid P1 time} + P1 times from a grid with '
         'repeats, non-decreasing; restart() between independently monotone segments (exhaustive to total length 3, sampled beyond); '
         'random sequences of 7-30 messages; all ordered pairs of a range pool for intersect(), each result run on monotone sequences; '
-        'make_absolute over pool x t0 argument; parse over START x END x type strings. Compared per case: model vs TimeRange '
-        '(verdict string and all seven attributes), TimeRange vs the Lean interval spec. non-trivial = verdicts not constant / range '
-        'specified; distinct = distinct (configuration, event list)')
+        'make_absolute over pool x t0 argument; parse over START x END x type strings (incl. exponent, blank-padded, digit-separator and '
+        'infinity spellings). The same requested values in every spelling - each bound as float / int / numpy.float64 / float32 / int64 / '
+        'Timestamp / None / omitted / invalid Timestamp / inf, all start spellings x all end spellings; absolute as bool / numpy.bool_ / '
+        'int / None / omitted x p1_t0 as Timestamp / float / numpy / int / None / omitted / NaN; positional arguments; parse() of tuples, '
+        'lists and TimeRange objects - each x a fixed probe set of sequences (all of length <= 2, untimed messages around every two P1 '
+        'times) + drawn longer ones; the expected interval is computed from the requested numbers, never from the object. Operation '
+        'sequences over two objects: A shown messages, B shown messages, then A.intersect(B) / B.intersect(A) / A.make_absolute(p) / '
+        'copy / deepcopy (in place or not), restart() or not, then further messages - all ordered pairs of a pool, and every combination '
+        'of {absolute, relative} x {t0 supplied, not} x {shown nothing, untimed only, a P1 time} for both sides; expected: error exactly '
+        'when neither side knows an origin (supplied t0 or first P1 time shown), accepted set of the result from the interval spec with '
+        'the origins the ranges know. Compared per case: model vs TimeRange (verdict string and all seven attributes; for operation '
+        'sequences the whole script is run on the model), TimeRange vs the Lean interval spec. non-trivial = verdicts not constant / '
+        'range specified; distinct = distinct (configuration, event list)')
     ctx.assumptions += [
         'times are multiples of 0.25 s below 2^20, on which the float comparisons and the subtraction of t0 are exact; the Lean model '
         'and theorems are over the integers (any fixed resolution)',
@@ -651,6 +1242,11 @@ def check(ctx):
         '[+-]digits[.digits] multiples of 0.25, inf, -inf and non-numbers',
         'intersect(): the accepted-set equation is checked for pairs whose relative origins agree on the sequence (the hypothesis '
         '`Compatible` of C13_intersect_is_intersection); pairs with different supplied t0 are exercised for model correspondence only',
+        'operation sequences: the result of intersect() is judged on a new pass (after restart(), or when the receiver has accepted '
+        'nothing and seen no P1 time at or beyond its end), and in the middle of a pass only when the operation leaves the accepted set '
+        'unchanged (make_absolute, copies, intersect with a range without bounds); narrowing a range in the middle of a pass is '
+        'exercised for model correspondence only - the property does not say which latches it keeps',
+        'bound spellings are the declared ones (float, Timestamp, None) and what converts to float exactly (int, numpy scalars)',
     ]
     ctx.prove(MODULES)
     try:
@@ -674,6 +1270,8 @@ def replay(ctx, path):
         mkabs_case(ctx, batch, d['ctor'], d['p'], d['in_place'], [d['seq']] if 'seq' in d else [])
     elif k == 'parse':
         parse_case(ctx, batch, d['string'], d['absolute'], [d['seq']] if 'seq' in d else [])
+    elif k == 'script':
+        script_case(ctx, batch, d)
     else:
         raise fv.InfraError('replay file has no recognised input kind')
     batch.flush(ctx)
